@@ -614,6 +614,64 @@ impl Model for ServerConc {
     }
 }
 
+/// X3: with the write buffer filled to every level around "full", the peer opens two streams beyond the limit of 1: after the
+/// transport opens, each has been refused exactly once and neither reached the application.
+pub fn fill_sweep_one(vectored: bool, fill: usize, verbose: bool) -> Vec<(String, String, String)> {
+    let mut v = vec![];
+    let mut sb = server::Builder::new();
+    sb.max_concurrent_streams(1);
+    let cfg = T2Cfg { role: Side::Server, peer_settings: vec![], client: None, server: Some(sb), policy: IoPolicy { vectored, ..IoPolicy::default() } };
+    let mut t = T2::new(&cfg, vec![]);
+    let mut panics = vec![];
+    t.peer_request(1, "/f", false);
+    t.drive(100);
+    t.peer_ack_settings();
+    t.drive(100);
+    fill_write_buffer(&mut t, 1, fill, vectored, &mut panics);
+    t.peer_request(3, "/x", true);
+    t.peer_request(5, "/y", true);
+    t.drive(100);
+    unblock_and_quiesce(&mut t);
+    if t.conn_alive() && t.goaway_sent().is_none() {
+        for sid in [3u32, 5] {
+            let refusals = t.rst_sent(sid).iter().filter(|&&c| c == 7).count();
+            let accepted = t.accepted.iter().any(|a| a.sid == sid);
+            if accepted {
+                v.push(("C05.too-many-streams-surfaced".to_string(), "fill-sweep".into(), format!("write buffer filled with {} octets (vectored {}): stream {} beyond the limit of 1 reached the application", fill, vectored, sid)));
+            } else if refusals != 1 {
+                v.push(("C05.stream-neither-accepted-nor-refused".into(), "fill-sweep".into(), format!("write buffer filled with {} octets (vectored {}): excess stream {} was refused {} times", fill, vectored, sid, refusals)));
+            }
+        }
+    }
+    if verbose {
+        println!("fill {} vectored {}: RST(3) {:?} RST(5) {:?} accepted {:?}", fill, vectored, t.rst_sent(3), t.rst_sent(5), t.accepted.iter().map(|a| a.sid).collect::<Vec<_>>());
+    }
+    t.panics.extend(panics);
+    for p in t.finish() {
+        v.push(("C05.panic".into(), "fill-sweep".into(), format!("fill {} vectored {}: panic {}", fill, vectored, p.lines().next().unwrap_or(""))));
+    }
+    v
+}
+
+pub fn fill_sweep(out: &mut Outcome, vios: &mut VioSet, quick: bool) {
+    let jobs = fill_levels(quick);
+    let found = std::sync::Mutex::new(vec![]);
+    par_for(jobs.len(), |i| {
+        let vs = fill_sweep_one(jobs[i].0, jobs[i].1, false);
+        if !vs.is_empty() {
+            found.lock().unwrap().push((jobs[i], vs));
+        }
+    });
+    for ((vectored, fill), vs) in found.into_inner().unwrap() {
+        for (rule, sig, what) in vs {
+            vios.add(Violation { rule, signature: sig, what, replay: json!({"harness": "c05.fill", "vectored": vectored, "fill": fill}) });
+        }
+    }
+    out.harness("write-buffer-fill-sweep", json!({"cases": jobs.len()}));
+    out.add_count("evaluations", jobs.len() as u64);
+    out.add_count("traces_validated_against_impl", jobs.len() as u64);
+}
+
 pub fn run(ctx: &Ctx) -> Outcome {
     let mut out = Outcome::default();
     let quick = ctx.tier.is_quick();
@@ -638,6 +696,7 @@ pub fn run(ctx: &Ctx) -> Outcome {
     for r in [r1, r2, r3, r4] {
         vs.merge(r.agg.vios);
     }
+    fill_sweep(&mut out, &mut vs, ctx.tier.is_quick());
     out.violations = vs.into_vec();
     out.guard_nonzero("requests parked", out.coverage.get("mechanism_counters").and_then(|m| m.get("requests_parked")).and_then(|v| v.as_u64()).unwrap_or(0));
     out.guard_nonzero("streams refused", out.coverage.get("mechanism_counters").and_then(|m| m.get("streams_refused")).and_then(|v| v.as_u64()).unwrap_or(0));
@@ -646,6 +705,13 @@ pub fn run(ctx: &Ctx) -> Outcome {
 
 pub fn replay(v: &serde_json::Value) -> Option<bool> {
     let h = v["harness"].as_str().unwrap_or("");
+    if h == "c05.fill" {
+        let vs = fill_sweep_one(v["vectored"].as_bool().unwrap_or(false), v["fill"].as_u64().unwrap_or(0) as usize, true);
+        for (r, _, w) in &vs {
+            println!("RULE VIOLATED: {} {}", r, w);
+        }
+        return Some(!vs.is_empty());
+    }
     for quick in [true, false] {
         for (n, l) in [("client-limit1", 1u32), ("client-limit2", 2)] {
             let name: &'static str = Box::leak(format!("{}-{}", n, if quick { "q" } else { "t" }).into_boxed_str());
